@@ -83,3 +83,14 @@ CASES += [
         ("quantarhei/builders/molecules.py", "            for bath in self.egcf:\n                if bath is not None:\n                    return bath.get_temperature()\n\n            # environments given",
          "            try:\n                egcf = self.get_transition_environment([0,1])\n            except:\n                egcf = None\n            if egcf is not None:\n                return egcf.get_temperature()\n\n            # environments given", 1)]},
 ]
+
+CASES += [
+    m("an explicit zero temperature counts as not given (seeded change of round 6)", "C14-K", A,
+      "        if temperature is None:\n            if self.sbi is None:\n                temperature = 0.0\n            elif self.sbi.has_temperature():",
+      "        if not temperature:\n            if self.sbi is None:\n                temperature = 0.0\n            elif self.sbi.has_temperature():"),
+    m("spectral density takes its own temperature when zero is asked for", "C14-K", "quantarhei/qm/corfunctions/spectraldensities.py",
+      "            if temperature is not None:\n                newdict[\"T\"] = temperature\n            T = newdict[\"T\"]", "            if temperature:\n                newdict[\"T\"] = temperature\n            T = newdict[\"T\"]"),
+    t("temperature default resolved with an inverted is-not-None test", A,
+      "        if temperature is None:\n            if self.sbi is None:\n                temperature = 0.0\n            elif self.sbi.has_temperature():\n                temperature = self.sbi.get_temperature()\n            else:\n                temperature = 0.0\n",
+      "        if temperature is not None:\n            pass\n        elif self.sbi is None:\n            temperature = 0.0\n        elif self.sbi.has_temperature():\n            temperature = self.sbi.get_temperature()\n        else:\n            temperature = 0.0\n"),
+]
